@@ -15,6 +15,9 @@ def run(ctx):
     # and every short history of the core operations
     storefam.histories(ctx, 300 if not thorough else 3000)
     storefam.short_histories(ctx)
+    # writes that fail inside the library before any system call of their own (the default set cannot hash)
+    import clifam
+    ctx.coverage["unhashable_default_runs"] = clifam.unhashable_default_leg(ctx, "C15")
     # every single system-call failure in every operation
     drv = fsfam.Driver(ctx)
     cases = fsfam.standard_cases(thorough)
